@@ -102,18 +102,18 @@ class RBench(C12_replay.Bench):
         self.alive = False
 
 
-def stream(n, close_at):
+def stream(n, close_at, value='close'):
     out = []
     for i in range(n):
-        hs = [('Connection', 'close')] if i == close_at else []
+        hs = [('Connection', value)] if i == close_at else []
         out.append(req('GET', '/r%d' % i, headers=hs)[0])
     return ''.join(out)
 
 
-def run_case(prog, n, close_at, order, report, drop_at):
+def run_case(prog, n, close_at, order, report, drop_at, value='close'):
     """n requests, the close_at-th asks for the close; handlers complete in `order`; report = 'eager' | 'late'; the peer drops the connection before the drop_at-th completion"""
     b = RBench(prog)
-    b.feed(stream(n, close_at))
+    b.feed(stream(n, close_at, value))
     if b.it.faults:
         return 'dispatch: %s' % b.it.faults[0]
     expect_dispatched = list(range(n if close_at is None else close_at + 1))
@@ -184,10 +184,14 @@ def r16(ctx, prog):
                 for report in ('eager', 'late'):
                     for drop_at in [None] + list(range(nd)):
                         cases.append((n, close_at, order, report, drop_at))
+    # the ways a request asks for the close: the option alone, and as one of a list of options (RFC 7230 6.1), in both positions
+    for value in ('TE, close', 'close, TE', 'Upgrade,close'):
+        cases.append((2, 0, (0,), 'eager', None, value))
+        cases.append((3, 1, (1, 0), 'late', None, value))
     if nmax < 4:
         for order in itertools.permutations(range(4)):          # four requests, no close, no drop: the first size at which a flush can take a parked response out of turn
             cases.append((4, None, order, 'late', None))
-    ctx.rule('C12.R16', 'A10 the response side by abstract replay: %d cases — one to %d pipelined requests dispatched by the interpreted onTcpReceived, one of them possibly asking for the close '
+    ctx.rule('C12.R16', 'A10 the response side by abstract replay: %d cases — one to %d pipelined requests dispatched by the interpreted onTcpReceived, one of them possibly asking for the close ("close" alone or in a list of connection options) '
              '(what is written after it is not dispatched; quick adds the 24 orders of four requests), the handlers completing in every order (commitRespond interpreted for every permutation), "send completed" reported '
              'after every burst or only at the end, the peer dropping the connection before any completion or never: after every completion the wire holds exactly the responses '
              'of the longest completed prefix, in order of arrival, once each; nothing is written after the closing response or on a connection that is gone; the server closes '
@@ -205,6 +209,6 @@ def r16(ctx, prog):
             break
     f = prog.fn1(IMPL + '::commitRespond')
     ctx.ob('C12.R16', 'Server::Impl|responses', bad is None, '%d cases' % len(cases) if bad is None else
-           '%d request(s)%s, completion order %s, send-completed %s%s: %s' % (bad[0][0], '' if bad[0][1] is None else ', request %d asks for the close' % bad[0][1], list(bad[0][2]), bad[0][3],
+           '%d request(s)%s, completion order %s, send-completed %s%s: %s' % (bad[0][0], '' if bad[0][1] is None else ', request %d asks for the close%s' % (bad[0][1], ' ("Connection: %s")' % bad[0][5] if len(bad[0]) > 5 else ''), list(bad[0][2]), bad[0][3],
                                                                            '' if bad[0][4] is None else ', the peer drops the connection before completion #%d' % (bad[0][4] + 1), bad[1]),
            where=f.loc(f.body))
